@@ -2,6 +2,7 @@
 #define MAIN_H
 
 #include <stdio.h>
+#include <stdlib.h>
 #include <string.h>
 #include <assert.h>
 #include "utf8_decode.h"
@@ -41,77 +42,51 @@ sanitize (const char *str, size_t length)
 }
 
 
+/* output buffer of sanitize_utf8(), released by sanitize_cleanup() */
+static char *sanitized = NULL;
+static size_t sanitized_size = 0;
+
+
 const char *
 sanitize_utf8 (const char *text, size_t length)
 {
-#define TEXT_SIZE 2048
-
-    int c1 = 0, c2 = 0; /* characters */
-    int p1 = 0, p2 = 0; /* byte position of characters */
-    int pos = 0;        /* position in sanitized array */
-    static char sanitized[TEXT_SIZE];
-    char buf[32];
+    /* worst case: every byte is replaced by "0xNN" */
+    size_t need = length * 4 + 1;
+    size_t pos = 0;
 
 
-/* html data contain some unneccessary characters:
- * 1) such characters as '&lrm;' and '&rlm;' broke encoding to punycode;
- * 2) we don't want any '\r', '\n' characters in the output CSV file.
- */
-#define SKIP(c, p, l) do { \
-    if ((c) < 0x0020 || (c) == 0x007f) { \
-        sprintf (buf, "0x%02x", c); \
-        size_t x = strlen (buf); \
-        memcpy (sanitized + pos, buf, x); \
-        pos += x; \
-    } \
-    else { \
-        assert (pos < TEXT_SIZE); \
-        memcpy (sanitized + pos, text + p, l); \
-        pos += l; \
-    } \
-} while (0)
-
-
-    utf8_decode_init ((char *) text, length);
-    /* look forward for characters and their lengths.
-     * Such way (may be ugly) helps us avoid creation of utf8_encode() func.
-     */
-    for (;;) {
-        c1 = utf8_decode_next ();
-        p1 = utf8_decode_at_byte ();
-
-        if (c1 < 0) {
-            if (c2 > 0) { /* it is possible that we miss something */
-                /* at p2, length: len - p2 */
-                SKIP(c2, p2, length - p2);
-            }
-            break;
-        }
-
-        if (p2 > 0) { /* previous character */
-            /* at p2, length: p1 - p2 */
-            SKIP(c2, p2, p1 - p2);
-        }
-
-        /* look forward */
-        c2 = utf8_decode_next ();
-        p2 = utf8_decode_at_byte ();
-
-        if (c2 > 0) {
-            /* at p1, length: p2 - p1 */
-            SKIP(c1, p1, p2 - p1);
-        }
-        else {
-            /* it possible that we read everything; does not work always. */
-            /* at p1, length: len - p1 */
-            SKIP(c1, p1, length - p1);
-        }
+    if (need > sanitized_size) {
+        char *buf = realloc (sanitized, need);
+        assert (buf != NULL);
+        sanitized = buf;
+        sanitized_size = need;
     }
 
-    assert (c1 == UTF8_END);
+    /* we don't want any '\r', '\n' and other control characters in the
+     * output. Bytes >= 0x80 are parts of multibyte UTF-8 characters (or
+     * invalid UTF-8, which is printed as it is): copy them unchanged.
+     */
+    for (size_t i = 0; i < length; i++) {
+        unsigned char c = (unsigned char) text[i];
+
+        if (c < 0x20 || c == 0x7f)
+            pos += sprintf (sanitized + pos, "0x%02x", c);
+        else
+            sanitized[pos++] = (char) c;
+    }
+
     sanitized[pos] = '\0';
 
     return sanitized;
+}
+
+
+static void
+sanitize_cleanup (void)
+{
+    free (sanitized);
+    sanitized = NULL;
+    sanitized_size = 0;
 }
 
 #endif /* MAIN_H */
